@@ -474,7 +474,6 @@ fn execute_bytecode_with_environment(
 
     // Extract data before consuming bytecode
     let builtin_names: Vec<String> = bytecode.builtins.iter().map(|b| b.name.clone()).collect();
-    let bytecode_for_format = bytecode.clone();
 
     // Start process from bytecode
     let start_time = std::time::Instant::now();
@@ -507,13 +506,16 @@ fn execute_bytecode_with_environment(
 
                 // Print result unless quiet or OK/NIL
                 if !quiet && !value.is_ok() && !value.is_nil() {
+                    // The value's tuple and constant indices are those of the environment's
+                    // program (merging renumbers them), not of the bytecode that was loaded.
+                    let program = environment.get_program();
                     let binary_lookup = format::BytecodeBinaryLookup {
-                        constants: &bytecode_for_format.constants,
+                        constants: program.get_constants(),
                         heap: &heap,
                     };
                     println!(
                         "{}",
-                        format::format_value(&value, &bytecode_for_format, &binary_lookup)
+                        format::format_value(&value, program, &binary_lookup)
                     );
                 }
 
